@@ -204,8 +204,13 @@ func (u *ut0311) SendUDP(addr *net.UDPAddr, request []byte) ([]byte, error) {
 		Control: func(network, address string, connection syscall.RawConn) (err error) {
 			var operr error
 
+			// NTS: SO_REUSEADDR is for the (shared) fixed bind port only - with bind port 0 it allows the OS to assign
+			//      the same ephemeral port to two sockets connected to the same controller, which then receive each
+			//      other's replies
 			f := func(fd uintptr) {
-				operr = setSocketOptions(fd)
+				if bind.Port != 0 {
+					operr = setSocketOptions(fd)
+				}
 			}
 
 			if err := connection.Control(f); err != nil {
